@@ -382,6 +382,7 @@ func (rc *raftNode) startRaft(ds DataStorage, standalone bool) error {
 			nodeLog.Warning(err)
 			return err
 		}
+		verifPoint("restart.snaploaded")
 		if err == snap.ErrNoSnapshot || raft.IsEmptySnap(*snapshot) {
 			rc.Infof("loading no snapshot \n")
 			rc.ds.CleanData()
@@ -397,6 +398,7 @@ func (rc *raftNode) startRaft(ds DataStorage, standalone bool) error {
 					rc.Errorf("failed to restore from snapshot: %s", err)
 					return err
 				}
+				verifPoint("restart.restored")
 			} else if err == errNobackupAvailable {
 				if common.IsConfSetted(common.ConfIgnoreStartupNoBackup) {
 					rc.Infof("ignore failed at startup for no any backup from anyware")
@@ -485,6 +487,7 @@ func (rc *raftNode) restartNode(c *raft.Config, snapshot *raftpb.Snapshot) error
 		rc.Infof("restarting node failed to replay wal: %v", err.Error())
 		return err
 	}
+	verifPoint("restart.replayed")
 	rc.node = raft.RestartNode(c)
 	advanceTicksForElection(rc.node, c.ElectionTick)
 	return nil
@@ -676,6 +679,7 @@ func (rc *raftNode) beginSnapshot(snapTerm uint64, snapi uint64, confState raftp
 		return err
 	}
 	rc.Infof("get snapshot object done: %v, state: %v", snapi, confState.String())
+	verifPoint("snap.checkpoint.started")
 
 	rc.wgAsync.Add(1)
 	go func() {
@@ -686,6 +690,7 @@ func (rc *raftNode) beginSnapshot(snapTerm uint64, snapi uint64, confState raftp
 			return
 		}
 		rc.Infof("snapshot data : %v\n", string(data))
+		verifPoint("snap.data")
 		rc.Infof("create snapshot with conf : %v\n", confState)
 		// now we can do the actually snapshot for copy
 		snap, err := rc.raftStorage.CreateSnapshot(snapi, &confState, data)
@@ -696,22 +701,27 @@ func (rc *raftNode) beginSnapshot(snapTerm uint64, snapi uint64, confState raftp
 			rc.Errorf("create snapshot at index %d failed: %v", snapi, err)
 			return
 		}
+		verifPoint("snap.created")
 		// SaveSnap saves the snapshot to file and appends the corresponding WAL entry.
 		if err := rc.persistStorage.SaveSnap(snap); err != nil {
 			rc.Errorf("save snapshot at index %v failed: %v", snap.Metadata, err)
 			return
 		}
+		verifPoint("snap.saved")
 		err = rc.persistStorage.Sync()
 		if err != nil {
 			rc.Errorf("failed to sync wal: %s", err)
 			return
 		}
+		verifPoint("snap.walsynced")
 		if err = rc.persistStorage.Release(snap); err != nil {
 			rc.Errorf("failed to release wal: %s", err)
 			return
 		}
+		verifPoint("snap.walreleased")
 		// update the latest snapshot index for statemachine
 		rc.ds.UpdateSnapshotState(snap.Metadata.Term, snap.Metadata.Index)
+		verifPoint("snap.state")
 
 		compactIndex := uint64(1)
 		if snapi > uint64(rc.config.SnapCatchup) {
@@ -726,6 +736,7 @@ func (rc *raftNode) beginSnapshot(snapTerm uint64, snapi uint64, confState raftp
 			return
 		}
 		rc.Infof("compacted log at index %d", compactIndex)
+		verifPoint("snap.compacted")
 	}()
 	return nil
 }
@@ -1022,6 +1033,7 @@ func (rc *raftNode) processReady(rd raft.Ready) {
 		}
 		rc.lastPublished = newPublished
 		rc.publishEntries(rd.CommittedEntries, rd.Snapshot, applySnapshotTransferResult, raftDone, applyWaitDone)
+		verifPoint("ready.published")
 	}
 	if !raft.IsEmptySnap(rd.Snapshot) {
 		// since the snapshot only has metadata, we need rsync the real snapshot data first.
@@ -1050,6 +1062,7 @@ func (rc *raftNode) processReady(rd raft.Ready) {
 
 	start := time.Now()
 	// TODO: save entries, hardstate and snapshot should be atomic, or it may corrupt the raft
+	verifPoint("persist.before")
 	if err := rc.persistRaftState(&rd); err != nil {
 		rc.Errorf("raft save states to disk error: %v", err)
 		go rc.ds.Stop()
@@ -1091,9 +1104,11 @@ func (rc *raftNode) processReady(rd raft.Ready) {
 		if err := rc.persistStorage.Release(rd.Snapshot); err != nil {
 			rc.Errorf("failed to release Raft wal: %s", err)
 		}
+		verifPoint("snap.install.released")
 	}
 	cost2 := time.Since(start)
 	rc.raftStorage.Append(rd.Entries)
+	verifPoint("storage.appended")
 	cost3 := time.Since(start) - cost2
 	if cost3 > raftSlow/2 {
 		rc.Infof("raft append commit entries slow: %v, cost: %v", len(rd.Entries), cost3)
@@ -1131,7 +1146,9 @@ func (rc *raftNode) processReady(rd raft.Ready) {
 	} else {
 		raftDone <- struct{}{}
 	}
+	verifPoint("raftdone")
 	rc.node.Advance(rd)
+	verifPoint("ready.advanced")
 }
 
 //should  atomically saves the Raft states, log entries and snapshots
@@ -1147,11 +1164,13 @@ func (rc *raftNode) persistRaftState(rd *raft.Ready) error {
 		rc.Infof("raft persist snapshot meta done : %v", rd.Snapshot.String())
 		// update the latest snapshot index for statemachine
 		rc.ds.UpdateSnapshotState(rd.Snapshot.Metadata.Term, rd.Snapshot.Metadata.Index)
+		verifPoint("persist.snap")
 	}
 	if err := rc.persistStorage.Save(rd.HardState, rd.Entries); err != nil {
 		rc.Errorf("raft save wal error: %v", err)
 		return err
 	}
+	verifPoint("persist.wal")
 	return nil
 }
 
